@@ -23,7 +23,8 @@ AXES = {
     "residual": ["variable_projection", "non_negative_least_squares"],
     "full": ["no", "yes"],
     "layout": ["mg", "gm", "mixed"],
-    "groups": ["one", "two"],
+    "groups": ["one", "two", "two_unlinked"],
+    "memorder": ["c", "f"],
     "labels": ["d", "substr"],
 }
 DEFAULT = {k: v[0] for k, v in AXES.items()}
@@ -53,8 +54,8 @@ def make_spec(o, variant=1, seed=0):
     labels = LABEL_SETS[o["labels"]][:n]
     idx = {"none": (False, False), "all": (True, True), "mixed": (False, True)}[o["indexdep"]]
     mcs = {
-        "m1": S.mc_model(["s1", "s2"], idx[0]),
-        "m2": S.mc_model(["s2", "s3"], idx[1]),
+        "m1": S.mc_model(["s1", "s2"], idx[0], fortran=o["memorder"] == "f"),
+        "m2": S.mc_model(["s2", "s3"], idx[1], fortran=o["memorder"] == "f"),
         "m4": S.mc_model(["t1", "t2"], idx[1]),
         "g1": S.mc_global(["q1", "q2"]),
     }
@@ -75,11 +76,11 @@ def make_spec(o, variant=1, seed=0):
             d["weight"] = "dataset"
         datasets.append(d)
     groups = {"default": {"link_clp": o["link"], "residual_function": o["residual"]}}
-    if o["groups"] == "two" and n >= 2:
+    if o["groups"] in ("two", "two_unlinked") and n >= 2:
         datasets[-1]["group"] = "second"
         datasets[-1]["megacomplexes"] = ["m4"]
         datasets[-1]["mc_scales"] = None
-        groups["second"] = {"link_clp": None, "residual_function": "variable_projection"}
+        groups["second"] = {"link_clp": None if o["groups"] == "two" else False, "residual_function": "variable_projection"}
     if o["full"] == "yes":
         if o["link"] is True:
             return None
